@@ -233,6 +233,12 @@ def ctfOf (F : Fns α) (inp : Input α) (cell : Cell α) : CTF α :=
     fin F inp cell (F.twoPi * khCell F inp cell / pdOf F inp cell) (khCell F inp cell)
       (r0Used F inp cell) (pdOf F inp cell)
 
+/-- `Connection::setSkinFactor(skin_factor)` (CSKIN): the stored denominator is shifted by the
+change of skin and CF rescaled by the ratio of the denominators. -/
+def setSkinFactor (c : CTF α) (skin : α) : CTF α :=
+  let pd := c.denom - c.skin + skin
+  { c with skin := skin, CF := c.CF * (c.denom / pd), denom := pd }
+
 /-- `ctf_kind`: `Defaulted` when CF was not given (`true` = DeckValue). -/
 def ctfFromDeck (F : Fns α) (inp : Input α) : Bool :=
   if cfInitial F inp < F.zero then false else true
